@@ -11,44 +11,86 @@ REG = {
     "C01": {
         "modules": ["VProofs.Props.C01"],
         "theorems": thms("C01", ["C01_detect", "C01_pandas", "C01_pandas_model"]),
-        "runners": ["pandas", "engine"],
+        "runners": ["pandas", "engine", "numpy", "list"],
+        "relevant": ["contains", "detect"],
     },
     "C02": {
         "modules": ["VProofs.Props.C02"],
         "theorems": thms("C02", ["C02_order_indep", "C02_mutex_generic_pandas", "dtype_partition", "contains_dtypePred"]),
         "runners": ["pandas"],
+        "relevant": ["contains", "guard", "infer-path", "infer-outcome", "detect-path", "relation-missing"],
     },
     "C03": {
         "modules": ["VProofs.Props.C03"],
         "theorems": thms("C03", ["C03_infer_sound", "C03_lands_step"]),
-        "runners": ["pandas"],
+        "runners": ["pandas", "numpy", "list"],
     },
     "C04": {
         "modules": ["VProofs.Props.C04"],
         "theorems": thms("C04", ["C04_fixpoint"]),
-        "runners": ["pandas"],
+        "runners": ["pandas", "numpy", "list"],
     },
     "C15": {
         "modules": ["VProofs.Props.C15"],
         "theorems": thms("C15", ["C15_detect", "C15_infer"]),
         "runners": ["pandas"],
+        "relevant": ["contains", "guard", "infer-path", "infer-outcome", "detect-path", "relation-missing"],
     },
     "C16": {
         "modules": ["VProofs.Props.C16"],
         "theorems": thms("C16", ["C16_chain", "C16_nested_pandas", "C16_witness_F26", "C16_witness_F27", "on_path_of_contains"]),
         "runners": ["pandas"],
+        "relevant": ["contains", "detect-path"],
     },
     "C05": {
         "modules": ["VProofs.Props.C05"],
         "theorems": thms("C05", ["C05_detected_is_input", "C05_inferred_is_input_when_no_coercion",
                                  "no_coercion_returns_input"]),
-        "runners": ["engine", "mutation"],
+        "runners": ["engine", "pandas", "frame", "numpy", "list"],
+        "relevant": [],
         "partial": "in-place mutation and element identity are runtime facts: observed by deep snapshots, not provable",
     },
     "C08": {
         "modules": ["VProofs.Props.C08"],
         "theorems": thms("C08", ["C08_labels", "C08_frame_map", "C08_subframe", "C08_compare", "C08_functional"]),
         "runners": ["engine", "frame"],
+    },
+    "C06": {
+        "modules": ["VProofs.Props.C06"],
+        "theorems": thms("C06", ["C06_shape", "C06_lossless_float_integer", "C06_lossless_complex_float",
+                                 "C06_lossless_datetime_date", "oks_length"]),
+        "runners": ["pandas", "frame", "family"],
+        "relevant": ["xform", "infer-data", "guard", "relation-missing"],
+    },
+    "C07": {
+        "modules": ["VProofs.Props.C07"],
+        "theorems": thms("C07", ["C07_empty", "C07_native_integer", "C07_native_count", "C07_native_float",
+                                 "C07_native_boolean", "C07_native_datetime", "C07_accepts_float_as_integer",
+                                 "C07_accepts_complex_as_float"]),
+        "runners": ["family", "pandas"],
+        "partial": "string encodings rest on the element parsers (data of the model); the full grid of families x encodings x null patterns is explored by the family runner on the real code",
+    },
+    "C09": {
+        "modules": ["VProofs.Props.C09"],
+        "theorems": thms("C09", ["C09_total", "C09_contains_total_pandas", "C09_generic_catch_all",
+                                 "C09_detect_total_pandas", "C09_total_guards", "C09_total_xforms", "C09_witness_F29"]),
+        "runners": ["pandas", "numpy", "list", "exotic"],
+        "relevant": ["contains", "guard", "xform-outcome", "infer-outcome", "detect-outcome", "relation-missing"],
+    },
+    "C10": {
+        "modules": ["VProofs.Props.C10"],
+        "theorems": thms("C10", ["C10_frame", "C10_history", "stringIsGeometry_restores", "suppressWarnings_id",
+                                 "C10_witness_F01"]),
+        "runners": ["history", "engine"],
+        "partial": "the model cannot exhibit global state it does not name, nor hash-seed / process dependence: observed by the History runner",
+    },
+    "C11": {
+        "modules": ["VProofs.Props.C11"],
+        "theorems": thms("C11", ["C11_sim", "C11_membership_pandas", "C11_repeat_pandas", "C11_detect_pandas",
+                                 "C11_detect_repeat_pandas"]),
+        "runners": ["bag", "pandas", "numpy", "list"],
+        "relevant": ["contains", "detect"],
+        "partial": "bag-invariance of infer_type (14 inference guards/transformers, pd.to_datetime) is explored by the bag runner, not yet proved",
     },
     "C12": {
         "modules": ["VProofs.Props.C12"],
